@@ -15,7 +15,8 @@ RULE = ('texts over {a, b, A, blank, ", e-acute, cyrillic zhe} exhaustively to '
         'positions and counts from -2 to len+3; replacement and search texts; '
         'numbers and booleans passed as text; LEN, LEFT, RIGHT, MID, FIND, '
         'REPLACE, UPPER, LOWER, TRIM, EXACT, CONCAT, CONCATENATE, & and the '
-        'five identities.  distinct non-trivial = distinct (function, '
+        'five identities; numbers with long decimal forms (1/3, 0.1+0.2): '
+        'every function sees one and the same text.  distinct non-trivial = distinct (function, '
         'position class, count class, text class, outcome class)')
 ASSUMPTIONS = [
     'TRIM removes all U+0020 blanks except single blanks between words (the '
@@ -26,7 +27,7 @@ ASSUMPTIONS = [
 ]
 FLOORS = {'library_calls': 20000, 'formula_calls': 300,
           'identity_checks': 200, 'functions_seen': 13,
-          'non_text_arguments': 50}
+          'non_text_arguments': 50, 'text_form_views': 100}
 ANCHOR_FUNCS = {'xlcalculator/xlfunctions/text.py': [
     'LEN', 'LEFT', 'RIGHT', 'MID', 'FIND', 'REPLACE', 'UPPER', 'LOWER',
     'TRIM', 'EXACT', 'CONCAT', 'CONCATENATE']}
@@ -306,6 +307,85 @@ def run(ctx):
         R.one('FIND', (1, v), ('FIND', 'nontext', repr(v)), True)
         R.one('REPLACE', (v, 1, 1, 9), ('REPLACE', 'nontext', repr(v)), True)
     R.flush()
+
+    # ---- one text form per number ------------------------------------------------
+    # For numbers whose shortest decimal form is long (1/3, 0.1+0.2, ...) the
+    # statement does not say WHICH text form it is (15 or 17 significant
+    # digits), but every function converts "to their text form": all functions
+    # must see the same text, its length must be what LEN reports, and it must
+    # read back as the number.
+    if ctx.shard in (0, 1) or thorough:
+        longs = [1 / 3, 2 / 3, 0.1 + 0.2, 0.7 * 3, 100 / 7, -1 / 7,
+                 1234.5678901234567, 1e-7 / 3, 2 ** 0.5, 1e15 / 7]
+        if thorough:
+            longs += [rng.uniform(-1000, 1000) / 7 for _ in range(40)]
+        F = R.F
+        for v in longs:
+            views = {
+                'CONCAT': (F['CONCAT'], (v,)),
+                'CONCATENATE': (F['CONCATENATE'], (v,)),
+                '&""': (F['CONCAT'], (v, '')),
+                'LEFT(,99)': (F['LEFT'], (v, 99)),
+                'RIGHT(,99)': (F['RIGHT'], (v, 99)),
+                'MID(,1,99)': (F['MID'], (v, 1, 99)),
+                'LOWER': (F['LOWER'], (v,)),
+                'TRIM': (F['TRIM'], (v,)),
+                'REPLACE(,1,0,"")': (F['REPLACE'], (v, 1, 0, '')),
+            }
+            seen = {k: monitors.call_outcome(f, *a)
+                    for k, (f, a) in views.items()}
+            ln = monitors.call_outcome(F['LEN'], v)
+            ctx.event('text_form_views', len(seen) + 1)
+            ctx.case(('text-form', repr(v)))
+            forms_ = {g for g in seen.values()}
+            bad = []
+            if len(forms_) != 1:
+                bad.append(f'the functions see different texts: {seen}')
+            else:
+                g = next(iter(forms_))
+                if g[0] != 'value' or g[1][0] != 'text':
+                    bad.append(f'no text: {g}')
+                else:
+                    t = g[1][1]
+                    if ln != ('value', ('num', float(len(t)))):
+                        bad.append(f'LEN gives {ln}, the text {t!r} has '
+                                   f'{len(t)} characters')
+                    try:
+                        back = float(t)
+                    except ValueError:
+                        back = None
+                    if back is None or abs(back - v) > 1e-14 * abs(v):
+                        bad.append(f'the text {t!r} does not read back as '
+                                   f'{v!r}')
+            if bad:
+                ctx.fail(f'text form of the number {v!r}: ' + '; '.join(bad),
+                         {'number': repr(v), 'views': {k: str(g) for k, g in
+                                                       seen.items()},
+                          'LEN': ln}, monitor='one-text-form',
+                         group='text-form:' + bad[0][:25])
+        # the same through formulas over computed values
+        exprs = ['1/3', '2/3', '0.1+0.2', '0.7*3', '100/7', 'A1/7']
+        forms2, meta2 = [], []
+        for e in exprs:
+            forms2.append(f'=EXACT(({e})&"",CONCATENATE({e}))')
+            meta2.append((e, '& vs CONCATENATE'))
+            forms2.append(f'=LEN({e})=LEN(CONCATENATE({e}))')
+            meta2.append((e, 'LEN vs LEN(CONCATENATE)'))
+            forms2.append(f'=EXACT(LEFT({e},99),CONCAT({e}))')
+            meta2.append((e, 'LEFT vs CONCAT'))
+            forms2.append(f'=EXACT(RIGHT({e},99)&"",MID({e},1,99))')
+            meta2.append((e, 'RIGHT vs MID'))
+            forms2.append(f'=LEN(({e})&"x")=LEN({e})+1')
+            meta2.append((e, 'LEN additive'))
+        outs = subject.eval_batch(forms2, {'A1': 22})
+        for (e, what), text, got in zip(meta2, forms2, outs):
+            ctx.event('text_form_views')
+            ctx.case(('text-form-formula', e, what))
+            if got != ('value', ('bool', True)):
+                ctx.fail(f'text form of {e} ({what}): {text} -> {got}',
+                         {'formula': text, 'cells': {'A1': 22},
+                          'observed': got}, monitor='one-text-form',
+                         group='text-form-formula:' + what)
 
     # ---- the & operator and the five identities, on observed values ---------
     sample = rng.sample(mine, min(len(mine), 60 if not thorough else 400))
